@@ -48,6 +48,7 @@ _RE_STATES = re.compile(r"(\d+) states generated, (\d+) distinct states found, (
 _RE_DEPTH = re.compile(r"The depth of the complete state graph search is (\d+)")
 _RE_INV = re.compile(r"Error: Invariant (\S+) is violated")
 _RE_PROP = re.compile(r"Error: (Temporal properties were violated|Action property (\S+) is violated|Deadlock reached)")
+_RE_TPROP = re.compile(r"Error: Temporal property (\S+) was violated")
 _RE_COV = re.compile(r"^<(\w+) line \d+, col \d+ to line \d+, col \d+ of module (\w+)>: (\d+):(\d+)")
 _RE_SIM = re.compile(r"Progress: (\d+) states checked, (\d+) traces generated")
 
@@ -245,7 +246,10 @@ def run_tlc(module: str, cfg: str, *, workers: int | str = "auto", env: dict | N
         r.violated = m.group(1)
     else:
         m = _RE_PROP.search(out)
-        if m:
+        mt = _RE_TPROP.search(out)
+        if mt:
+            r.violated = mt.group(1)
+        elif m:
             r.violated = m.group(2) or m.group(1)
     if r.violated is None:
         if timed_out and simulate:
